@@ -48,7 +48,10 @@ def handle (cmd : String) (args : List String) : Option String :=
       | "bai" => some (.bai {})
       | "csi" => some (.csi {})
       | "tbx" => do
-        let ns ← if pool == "-" then some [] else (pool.splitOn "/").mapM parseHex
+        -- "n" followed by "/<hex>" per pool name ("n/-" is the one empty name, "n" no name at all)
+        let ns ← match pool.splitOn "/" with
+          | "n" :: rest => rest.mapM parseHex
+          | _ => none
         some (.tbx {} (ns.map toBytes))
       | _ => none
     some (report base (toBytes bs) qs)
